@@ -27,7 +27,8 @@ func (p *packComp) Name() string { return "pack" }
 
 type realChunk struct {
 	id   string
-	data []byte
+	data []byte         // copy taken when the chunk was emitted
+	live *base.LogChunk // the chunk as the pipeline keeps it (queued, waiting for the upstream)
 }
 
 type packRun struct {
@@ -102,7 +103,7 @@ func (p *packComp) run(c Case) ([]string, *packRun) {
 			return "none"
 		}
 		k := len(pr.chunks)
-		pr.chunks = append(pr.chunks, realChunk{id: ch.ID, data: append([]byte{}, ch.Data...)})
+		pr.chunks = append(pr.chunks, realChunk{id: ch.ID, data: append([]byte{}, ch.Data...), live: ch})
 		var payload []byte
 		n := -1
 		var err error
@@ -154,6 +155,13 @@ func (p *packComp) run(c Case) ([]string, *packRun) {
 			}
 			return "bad-op"
 		}()
+	}
+	// chunks stay queued while later ones are made: their bytes must not change afterwards
+	for k, ch := range pr.chunks {
+		if !bytes.Equal(ch.live.Data, ch.data) || ch.live.ID != ch.id {
+			out[len(out)-1] += fmt.Sprintf(" CHANGED-AFTER-EMISSION k=%d", k)
+			break
+		}
 	}
 	return out, pr
 }
@@ -212,6 +220,9 @@ func (p *packComp) Oracle(c Case, impl []string) string {
 		l := impl[i]
 		if strings.HasPrefix(l, "panic") || strings.HasPrefix(l, "undecodable") {
 			return o.Name + ": " + l
+		}
+		if j := strings.Index(l, " CHANGED-AFTER-EMISSION"); j >= 0 {
+			return "an emitted chunk's bytes were overwritten while later chunks were made:" + l[j:]
 		}
 		switch o.Name {
 		case "pack cfg":
@@ -366,13 +377,27 @@ func (p *packComp) Generate(rng *rand.Rand, n int, emit func(Case)) {
 		ops = append(ops, Op{Name: "pack flush"})
 		emit(Case{Ops: ops, Tag: "ops-" + mode})
 	}
-	if n >= 100000 { // the shipped limits: 7 MiB / unlimited records (Forward), checked with ~9 MiB of 64 KiB records
+	// the shipped limits: 7 MiB / unlimited records (Forward modes), 5 MiB / 1000 records (Datadog), with ~9 MiB of 64 KiB records
+	realModes := []string{"p"}
+	if n >= 100000 {
+		realModes = []string{"p", "f", "c", "d"}
+	}
+	for _, mode := range realModes {
 		rec := append([]byte{0xda, 0xff, 0xf0}, bytes.Repeat([]byte("r"), 0xfff0)...)
-		ops := []Op{{Name: "pack cfg", Strs: []string{"c"}, Ints: []int64{7 * 1024 * 1024, 0}, Bytes: [][]byte{[]byte("big")}}}
+		lim := []int64{7 * 1024 * 1024, 0}
+		if mode == "d" {
+			rec = []byte("{\"m\":\"" + strings.Repeat("r", 0xfff0) + "\"}")
+			lim = []int64{5 * 1024 * 1024, 1000}
+		}
+		ops := []Op{{Name: "pack cfg", Strs: []string{mode}, Ints: lim, Bytes: [][]byte{[]byte("big")}}}
 		for j := 0; j < 140; j++ {
 			ops = append(ops, Op{Name: "pack write", Bytes: [][]byte{rec}})
 		}
-		ops = append(ops, Op{Name: "pack flush"})
+		small := []byte("\xa5small")
+		if mode == "d" {
+			small = []byte("{\"m\":\"small\"}")
+		}
+		ops = append(ops, Op{Name: "pack flush"}, Op{Name: "pack write", Bytes: [][]byte{small}}, Op{Name: "pack flush"})
 		emit(Case{Ops: ops, Tag: "real-limits"})
 	}
 }
